@@ -484,7 +484,7 @@ def termination(repo: Repo, rep, P: str):
     rd = repo.cls("Reader", module="rv.readers.reader")
     rw = repo.own_method(rd, "rewind")
     s = norm(rw)
-    wc = repo.func("rv.lib.iff", "write_chunk")
+    wc = inline.normalize(repo, None, repo.func("rv.lib.iff", "write_chunk"), sf=repo.module("rv.lib.iff"))
     hdr = 4
     for n in walk_no_nested(wc):
         if isinstance(n, ast.Call) and norm(n.func) in ("struct.pack", "pack") and n.args:
@@ -675,11 +675,35 @@ def short_cval(repo: Repo, rep, P: str):
                       "beyond the stored list no longer keep their defaults", f"{rel}:{fn.lineno}")
     else:
         rep.ok(f"{P}.R5", con, "no other store to controller_values", "controllers beyond the list keep the constructor default")
-    cv = norm(repo.own_method(mr, "process_CVAL"))
-    if "self._cvals.append(raw_value)" in cv and "unpack('<i', data)" in cv:
+    cvf = inline.normalize(repo, mr, repo.own_method(mr, "process_CVAL"))
+    cv = norm(cvf)
+    from ..packed import single_defs
+    dpar = [a.arg for a in cvf.args.args if a.arg != "self"][0]
+    unp = [c for c in ast.walk(cvf) if isinstance(c, ast.Call) and norm(c.func) in ("unpack", "struct.unpack") and len(c.args) == 2 and norm(c.args[1]) == dpar]
+    fmts = set()
+    for c in unp:
+        try:
+            fmts.add(repo.fold(c.args[0], ci=mr))
+        except NotConst:
+            fmts.add(None)
+    collected = False
+    cdefs = single_defs(cvf)
+    unpacked_names = {t.id for n in ast.walk(cvf) if isinstance(n, ast.Assign) and n.value in unp for tt in n.targets
+                      for t in (tt.elts if isinstance(tt, (ast.Tuple, ast.List)) else [tt]) if isinstance(t, ast.Name)}
+    for n in ast.walk(cvf):
+        if isinstance(n, ast.Call) and isinstance(n.func, ast.Attribute) and n.func.attr in ("append", "extend") and norm(n.func.value) == "self._cvals" and n.args:
+            a = n.args[0]
+            collected = collected or a in unp or (isinstance(a, ast.Name) and a.id in unpacked_names)
+        if isinstance(n, ast.AugAssign) and isinstance(n.op, ast.Add) and norm(n.target) == "self._cvals":
+            a = n.value
+            collected = collected or a in unp or (isinstance(a, ast.Name) and a.id in unpacked_names) or \
+                (isinstance(a, (ast.List, ast.Tuple)) and all(isinstance(x, ast.Name) and x.id in unpacked_names for x in a.elts))
+    if collected and fmts == {"<i"}:
         rep.ok(f"{P}.R5", f"{rel}:ModuleReader.process_CVAL", "(raw,) = unpack('<i', data); self._cvals.append(raw)", "values collected in file order")
+    elif not collected or None in fmts or not fmts:
+        rep.inconclusive(f"{P}.R5", f"{rel}:ModuleReader.process_CVAL", cv[:120], "collection of the stored value not recognised", rel)
     else:
-        rep.violation(f"{P}.R5", f"{rel}:ModuleReader.process_CVAL", cv[:120], "each CVAL must be collected in order as a 32-bit value", rel)
+        rep.violation(f"{P}.R5", f"{rel}:ModuleReader.process_CVAL", cv[:120], f"each CVAL must be collected in order as a signed 32-bit value (format {sorted(fmts)})", rel)
     init = norm(repo.own_method(mr, "__init__"))
     if "self._cvals = []" in init:
         rep.ok(f"{P}.R5", f"{rel}:ModuleReader.__init__", "self._cvals = []", "fresh list per module", nontrivial=False)
